@@ -1001,7 +1001,73 @@ fn check_items(ctx: &mut Ctx, spec: &FileSpec, file: &SlurmFile, origin: &str, t
             );
         }
     }
-    want.len() as u64 + 1
+    want.len() as u64 + 1 + check_adapters(ctx, file, &got, origin, text)
+}
+
+/// However the iterator is advanced (`nth`, `skip`, `step_by`, `last`, `count`, mixtures of
+/// `next` and `nth`), it must yield the items plain stepping yields, in the same order.
+fn check_adapters(ctx: &mut Ctx, file: &SlurmFile, plain: &[Payload], origin: &str, text: &str) -> u64 {
+    let n = plain.len();
+    let mut evals = 0u64;
+    let bad = |ctx: &mut Ctx, how: String, got: Vec<Payload>, want: Vec<Payload>| {
+        ctx.violation(
+            &format!("C15:iter_payload:adapter-differs-from-plain-stepping:{}", origin),
+            &format!("iter_payload advanced with {} yields {} items, plain stepping gives {} (first difference at {:?})", how, got.len(), want.len(), got.iter().zip(want.iter()).position(|(a, b)| a != b)),
+            json!({"json": text, "adapter": how, "got": format!("{:?}", got), "plain": format!("{:?}", want)}),
+        );
+    };
+    let res = crate::core::catch(|| {
+        let mut out: Vec<(String, Vec<Payload>, Vec<Payload>)> = Vec::new();
+        for k in 0..=n + 1 {
+            out.push((format!("skip({})", k), file.assertions.iter_payload().skip(k).collect(), plain.iter().skip(k).cloned().collect()));
+            if k > 0 {
+                out.push((format!("step_by({})", k), file.assertions.iter_payload().step_by(k).collect(), plain.iter().step_by(k).cloned().collect()));
+            }
+            // nth(k), then plain stepping to the end
+            let mut it = file.assertions.iter_payload();
+            let mut got: Vec<Payload> = it.nth(k).into_iter().collect();
+            got.extend(it);
+            out.push((format!("nth({}) then next..", k), got, plain.iter().skip(k).cloned().collect()));
+            // next, nth(k), next, nth(k) ...
+            let mut it = file.assertions.iter_payload();
+            let mut pit = plain.iter();
+            let (mut got, mut want) = (Vec::new(), Vec::new());
+            for round in 0..n + 2 {
+                let (a, b) = if round % 2 == 0 { (it.next(), pit.next()) } else { (it.nth(k), pit.nth(k)) };
+                got.extend(a);
+                want.extend(b.cloned());
+            }
+            out.push((format!("next / nth({}) alternating", k), got, want));
+        }
+        out.push(("last()".into(), file.assertions.iter_payload().last().into_iter().collect(), plain.last().cloned().into_iter().collect()));
+        let c = file.assertions.iter_payload().count();
+        let (lo, hi) = file.assertions.iter_payload().size_hint();
+        (out, c, lo, hi)
+    });
+    match res {
+        Err(text_p) => ctx.violation(
+            &format!("C15:iter_payload:adapter-panics:{}", crate::core::panic_location(&text_p)),
+            &format!("advancing iter_payload with an iterator adapter panicked: {}", text_p),
+            json!({"json": text}),
+        ),
+        Ok((out, c, lo, hi)) => {
+            for (how, got, want) in out {
+                evals += 1;
+                if got != want {
+                    bad(ctx, how, got, want);
+                    break;
+                }
+            }
+            if c != n {
+                ctx.violation(&format!("C15:iter_payload:count()-differs:{}", origin), &format!("count() = {} for {} items", c, n), json!({"json": text}));
+            }
+            if lo > n || hi.map(|h| h < n).unwrap_or(false) {
+                ctx.violation(&format!("C15:iter_payload:size_hint-excludes-truth:{}", origin), &format!("size_hint = ({}, {:?}) for {} items", lo, hi, n), json!({"json": text}));
+            }
+            ctx.obs("iter_payload_adapter_walks", evals);
+        }
+    }
+    evals
 }
 
 fn part_json(ctx: &mut Ctx) {
